@@ -473,4 +473,5 @@ def render_program(atoms, no_decomp, profile, steps, seed=0, rules=None, head=No
     lines.append("(run filt 1)")
     for rs, (outrel, _) in sorted(rules.items()):
         lines.append("(print-function %sS 1000000)" % outrel)
+        lines.append("(print-size %sS)" % outrel)  # lets the reader of the output verify that it parsed every row
     return "\n".join(lines) + "\n"
